@@ -23,7 +23,7 @@ Init == /\ st = EmptyState
 
 AskIds == {"a1", "s1"}
 BidIds == {"b1", "s1"}
-Owner(id, side) == IF id = "s1" THEN "multi1" ELSE IF side = "ask" THEN "seller1" ELSE "multi1"
+Owner(id, side) == IF side = "ask" THEN (IF id = "s1" THEN "seller1" ELSE "multi1") ELSE "multi1"
 Tot(p, s) == (p.n * s) \div SCALE
 Sz == IF Tier = "quick" THEN {2} ELSE {1, 2}
 
@@ -38,7 +38,7 @@ BidReqs(S) ==
 ApproveReqs == {RApproveAsk("appr1", Coins1("base", 2), i, "base", 2) : i \in AskIds}
 ReverseReqs ==
        {RReverse("cancel_ask", who, NoFunds, i, NoSize) : i \in AskIds, who \in {"seller1", "multi1"}}
-  \cup {RReverse("cancel_bid", "multi1", NoFunds, i, NoSize) : i \in BidIds}
+  \cup {RReverse("cancel_bid", who, NoFunds, i, NoSize) : i \in BidIds, who \in {"seller1", "multi1"}}
   \cup {RReverse("expire_ask", "exec1", NoFunds, i, NoSize) : i \in AskIds}
   \cup {RReverse("expire_bid", "exec1", NoFunds, i, NoSize) : i \in BidIds}
   \cup {RReverse("reject_ask", "exec1", NoFunds, i, 1) : i \in AskIds}
